@@ -321,6 +321,21 @@ def chunk_containers(chunk, acc):
                             acc.case(("xor", bname, key, prepend, sname, nonce, tuple(keys or ()), ak), outcome=[(g[1], g[2]) for g in got] if isinstance(got, list) else got)
                             if bad:
                                 acc.fail(bad[0] + "/xorencoded", {"kind": "Acont", "container": "xor", "arch": arch, "block": bname, "key": key, "prepend": prepend, "stub": sname, "nonce": nonce.hex(), "keys": keys, "all_keys": ak, "seed": acc.seed}, bad[1], bad[2])
+    # a stage located by the end-of-stub marker whose size field states less (or nothing, or more) than is there: the
+    # decoded view still covers everything behind the header
+    blk = RC.obfuscate(B["two"].ljust(4096, b"\x00"), 0x2E)
+    img = refpe.build_pe(arch=arch, data=b"\x11" * 16 + blk + b"\x22" * 16)
+    for declared in (0, 1000, len(img) - 4096, len(img) - 1, len(img) + 64):
+        enc = xorenc.encode(img, nonce=nonces[1], stub=xorenc.CALL_STUB, size_ok=False, size_delta=declared - len(img))
+        views = [(img, True), (enc, False)]
+        acc.states += 1
+        for keys, ak in ((None, False), ([0x2E], False)):
+            got = lib_candidates(enc, keys, ak, 8192)
+            acc.transitions += 1
+            bad = judge_a(views, keys, ak, got)
+            acc.case(("size-field", declared, tuple(keys or ())), outcome=[(g[1], g[2], len(g[0])) for g in got] if isinstance(got, list) else got)
+            if bad:
+                acc.fail(bad[0] + "/xorencoded/understated-size-field", {"kind": "Acont", "container": "xor-size", "arch": arch, "declared_size": declared, "keys": keys, "all_keys": ak, "seed": acc.seed}, bad[1], bad[2])
     # a block in front of the image, at decoded offset 1, 2 or 3 (reads that start inside the first encoded dword)
     for lead in (1, 2, 3):
         for key in (0x2E, 0x69, 0x00):
